@@ -13,7 +13,7 @@ use snafu::ResultExt;
 use super::formatter::Item;
 use crate::errors::ParseSnafu;
 use crate::{parser::Token, ParsingError};
-use crate::{Epoch, HifitimeError, MonthName, TimeScale, Unit, Weekday};
+use crate::{is_gregorian_valid, Epoch, HifitimeError, MonthName, TimeScale, Unit, Weekday};
 use core::fmt;
 use core::str::FromStr;
 
@@ -378,6 +378,19 @@ impl Format {
 
         let epoch = match day_of_year {
             Some(days) => {
+                // The day of year is one indexed and must be within the year.
+                // NOTE: 29 February is only valid in leap years.
+                let days_in_year = if is_gregorian_valid(decomposed[0], 2, 29, 0, 0, 0, 0) {
+                    366.0
+                } else {
+                    365.0
+                };
+                if !(1.0..days_in_year + 1.0).contains(&days) {
+                    return Err(HifitimeError::Parse {
+                        source: ParsingError::ValueError,
+                        details: "invalid day of year",
+                    });
+                }
                 // Parse the elapsed time in the given day
                 let elapsed = (decomposed[3] as i64) * Unit::Hour
                     + (decomposed[4] as i64) * Unit::Minute
